@@ -258,6 +258,11 @@ def _check(prog, rep):
                          "a margin update from a line is conditional on that line having a non-whitespace char", ev or "",
                          "the margin is updated from a line (to %s) on a path whose condition does not establish that the line "
                          "contains a non-whitespace character: a whitespace-only line can change the margin" % D(nv), site=site)
+                if how is not None and "failing is_whitespace" in how:
+                    # a seed (a cut that does not look at the previous margin) may happen once: the line loop is left
+                    r2.check(tr.kind == "exit", "seed-once", "after seeding the margin from a line the seed loop is left",
+                             "the seeding path is an exit path", "the margin is seeded from a line's leading whitespace on a path that "
+                             "stays in the loop: every later non-blank line would overwrite the margin instead of narrowing it", site=site)
                 r2.check(how is not None, "cut-offset", "k is a scanned character offset of the same line", how or "",
                          "the margin is cut at %s, which is not the offset of the char at which the scan of this line stopped "
                          "(first non-whitespace char / first mismatch with the margin)" % D(k), site=site)
